@@ -1,28 +1,43 @@
 """C16 — validation: nothing breaking the server's limits or the static packet rules is sent, nothing conforming is
 rejected.  Configuration of ./check C16 and MANIFEST texts."""
 
-PROP = {'areas': [{'area': 'c16', 'corpus': ['corpus/C16/witnesses.txt'], 'extra': ['table'], 'quick': 16000, 'thorough': 1600000}],
+PROP = {'areas': [{'area': 'c16', 'corpus': ['corpus/C16/witnesses.txt'], 'extra': ['table'], 'quick': 16000, 'thorough': 1600000},
+           {'area': 'engine',
+            'corpus': [],
+            'extra': ['100'],
+            'only_prop': 'C16',
+            'quick': 12000,
+            'thorough': 1000000,
+            'tie_fields': ['out', 'done', 'outcome']}],
  'coq_target': 'Properties/C16.vo',
  'modelled': 'validate.rs (validate_packet_outbound / _outbound_internal / _inbound_internal, validate_user_properties, length helpers, ack macros, '
              'is_valid_topic, compute_topic_filter_properties, is_valid_topic_filter_internal); the per-packet validate_*_outbound / _outbound_internal / '
-             '_inbound_internal of mqtt/{auth,connack,connect,disconnect,publish,subscribe,unsubscribe,puback,pubrec,pubrel,pubcomp,suback,unsuback}.rs; '
-             'the MQTT 5 length computations through Codec/ImplEncode.v',
+             '_inbound_internal of mqtt/{auth,connack,connect,disconnect,publish,subscribe,unsubscribe,puback,pubrec,pubrel,pubcomp,suback,unsuback}.rs; the '
+             'MQTT 5 length computations through Codec/ImplEncode.v',
  'not_modelled': 'error messages; u32 overflow of the size sum for packets of 4 GiB and more; the engine-level half (which operations reach validation, '
                  'completion with PacketValidationFailure) belongs to the engine model',
- 'rule': 'cases = (negotiated settings, connect options, alias resolution, submitted packet, packet id bound by the engine): PUBLISH / SUBSCRIBE / UNSUBSCRIBE / '
-         'DISCONNECT / acks / AUTH / CONNECT / PINGREQ and server-only kinds, every field at, below and above its limit (65535/65536-byte strings rarely), topic and '
-         'filter strings over the token alphabet {/, +, #, $share, $, a, b, multi-byte char, NUL}, x CONNACK capabilities (max qos 0/1/2, retain, wildcard, shared, '
-         'subscription ids, maximum packet size at the packet\'s size -1/0/+1); static verdict on the submitted packet and send-time verdict on the id-bound packet '
-         'compared model vs implementation (tie); monitor: accepted => Spec.violations = [] and Spec.conforms => accepted (property). Plus the EXHAUSTIVE filter '
-         'table: every concatenation of at most 6 tokens from {/, +, #, $share, a, b} (55 987 strings) x 12 combinations of wildcard / shared availability and no_local '
-         'against the model and against Spec.spec_filter_verdict (thorough: also all 7-token strings). distinct = distinct case texts; non-trivial = rejected by at '
-         'least one of the two validations'}
+ 'rule': 'cases = (negotiated settings, connect options, alias resolution, submitted packet, packet id bound by the engine): PUBLISH / SUBSCRIBE / UNSUBSCRIBE '
+         '/ DISCONNECT / acks / AUTH / CONNECT / PINGREQ and server-only kinds, every field at, below and above its limit (65535/65536-byte strings rarely), '
+         'topic and filter strings over the token alphabet {/, +, #, $share, $, a, b, multi-byte char, NUL}, x CONNACK capabilities (max qos 0/1/2, retain, '
+         "wildcard, shared, subscription ids, maximum packet size at the packet's size -1/0/+1); static verdict on the submitted packet and send-time verdict "
+         'on the id-bound packet compared model vs implementation (tie); monitor: accepted => Spec.violations = [] and Spec.conforms => accepted (property). '
+         'Plus the EXHAUSTIVE filter table: every concatenation of at most 6 tokens from {/, +, #, $share, a, b} (55 987 strings) x 12 combinations of '
+         'wildcard / shared availability and no_local against the model and against Spec.spec_filter_verdict (thorough: also all 7-token strings). distinct = '
+         'distinct case texts; non-trivial = rejected by at least one of the two validations || ENGINE: the histories of the engine area (the simulated broker '
+         'announces Maximum QoS, Retain Available, Wildcard / Shared Subscription Available = 0 and small Maximum Packet Sizes at random) with the wire '
+         'monitor mon_c16_wire: nothing on the wire exceeds what the CONNACK of that connection announced.'}
 
 META = {'design_ref': 'DESIGN.md section 7 / C16',
- 'level_note': 'Trusted: Coq kernel; the tie (facade, harness, OCaml driver); the reading of MQTT 5 sections 1.5, 2.1, 3.x.2, 4.7, 4.8 written down in Validate/Spec.v.',
- 'level_text': 'Coq theorems over a line-by-line model of the validation code and an independent specification predicate: every rule a validated packet can still '
-               'violate is one of an explicit list of holes, each with a machine-checked witness (C16_sound, C16_sound_refuted_*); a conforming submitted packet is '
-               'accepted except for two stated over-strict cases (C16_complete); the topic-filter grammar of the code equals the specification grammar for all '
-               'strings (C16_filter_grammar, unbounded). The model and the specification predicate run against the implementation on every check.',
+ 'level_note': 'Trusted: Coq kernel; the tie (facade, harness, OCaml driver); the reading of MQTT 5 sections 1.5, 2.1, 3.x.2, 4.7, 4.8 written down in '
+               'Validate/Spec.v.',
+ 'level_text': 'Coq theorems over a line-by-line model of the validation code and an independent specification predicate: every rule a validated packet can '
+               'still violate is one of an explicit list of holes, each with a machine-checked witness (C16_sound, C16_sound_refuted_*); a conforming '
+               'submitted packet is accepted except for two stated over-strict cases (C16_complete); the topic-filter grammar of the code equals the '
+               'specification grammar for all strings (C16_filter_grammar, unbounded). The model and the specification predicate run against the '
+               'implementation on every check. The wiring of the send-time check inside the engine (which packet form is validated, against which settings) is '
+               'covered by the engine model (v_out is called at seat time with the resolution the encoder uses: lock-step correspondence) and by the wire '
+               'monitor mon_c16_wire on the implementation trace: every PUBLISH / SUBSCRIBE / UNSUBSCRIBE / ack on the wire respects the Maximum QoS, Retain '
+               'Available, Wildcard / Shared Subscription Available and (MQTT 5, size of the bytes actually sent, alias included) Maximum Packet Size of the '
+               'last CONNACK.',
  'technique': 'machine-checked proof in Coq (case analysis over the validation code, induction over topic levels) + lock-step correspondence of the extracted '
               'model and specification monitor with the implementation, including an exhaustive filter table'}
